@@ -209,3 +209,33 @@ Proof.
       * right. exists ((false, ty) :: pre), a, post. subst r. repeat split; auto.
         intros x [<-|Hx]; auto.
 Qed.
+
+(* ---- tests that end in a dynamic error ---- *)
+Theorem first_alternative_dyn alts declared :
+  (forall a, In a alts -> holds (fst a) = false) /\ alternative_type_dyn alts declared = declared \/
+  exists pre a post, alts = pre ++ a :: post /\ holds (fst a) = true /\
+                     (forall x, In x pre -> holds (fst x) = false) /\ alternative_type_dyn alts declared = snd a.
+Proof.
+  unfold alternative_type_dyn, alternative_type. induction alts as [|[c ty] r IH]; cbn [map find fst snd].
+  - left. split; [intros a [] | reflexivity].
+  - destruct (holds c) eqn:Hc; cbn [fst].
+    + right. exists [], (c, ty), r. repeat split; auto. intros x [].
+    + destruct IH as [[H1 H2]|[pre [a [post [E [Ha [Hp Hr]]]]]]].
+      * left. split; [|exact H2]. intros a [<-|Ha]; auto.
+      * right. exists ((c, ty) :: pre), a, post. subst r. repeat split; auto.
+        intros x [<-|Hx]; auto.
+Qed.
+
+Theorem raise_agrees_when_defined alts declared t :
+  alternative_type_raise alts declared = Some t -> alternative_type_dyn alts declared = t.
+Proof.
+  unfold alternative_type_dyn, alternative_type. induction alts as [|[[[|]|] ty] r IH]; cbn [alternative_type_raise map find fst snd holds].
+  - now intros [= <-].
+  - now intros [= <-].
+  - exact IH.
+  - discriminate.
+Qed.
+
+Theorem raise_variant_refuted :
+  exists alts declared, alternative_type_raise alts declared = None /\ alternative_type_dyn alts declared <> declared.
+Proof. exists [(TError, 1); (TBool true, 2)], 0. split; [reflexivity | cbv; discriminate]. Qed.
